@@ -44,7 +44,7 @@ func verifyFunction(p *program, fn *ssa.Function, fc *funcContract, safetyOnly b
 			panic(r)
 		}
 	}()
-	x.decls = append(x.decls, "(declare-fun empty_arr () (Array Int Int))", "(define-sort RV () Int)", "(define-fun rv_zero () Int 0)", "(declare-fun nextRef!0 () Int)")
+	x.decls = append(x.decls, "(declare-fun empty_arr () (Array Int Int))", "(define-fun rv_zero () Int 0)", "(declare-fun nextRef!0 () Int)")
 	x.assume("true", app(">", "nextRef!0", fmt.Sprint(maxGlobals)))
 	st := &state{heap: map[string]string{}, guard: "true", nextRef: "nextRef!0"}
 	fr := x.newFrame(fn, 0)
@@ -130,8 +130,11 @@ func verifyFunction(p *program, fn *ssa.Function, fc *funcContract, safetyOnly b
 			g := x.evalBool(post, e.expr)
 			x.oblige(out.st, "post", tag, g, pos, "postcondition: "+e.text, false)
 		}
-		if fc.assigns != nil {
+		if fc.assigns != nil && !fc.assumeFrame {
 			x.frameObligations(fr, out.st, fc, pos)
+		}
+		if fc.assumeFrame {
+			x.trusted["frame of "+fn.String()+" assumed, not checked (it calls function values whose effects the contract language cannot bound)"] = true
 		}
 	}
 	if fc != nil {
@@ -229,7 +232,7 @@ func verifyLemma(p *program, key string, fc *funcContract) (res *funcResult) {
 			panic(r)
 		}
 	}()
-	x.decls = append(x.decls, "(declare-fun empty_arr () (Array Int Int))", "(define-sort RV () Int)", "(define-fun rv_zero () Int 0)", "(declare-fun nextRef!0 () Int)")
+	x.decls = append(x.decls, "(declare-fun empty_arr () (Array Int Int))", "(define-fun rv_zero () Int 0)", "(declare-fun nextRef!0 () Int)")
 	x.assume("true", app(">", "nextRef!0", fmt.Sprint(maxGlobals)))
 	st := &state{heap: map[string]string{}, guard: "true", nextRef: "nextRef!0"}
 	env := &cenv{x: x, vars: map[string]Val{}, st: st, old: st, pkg: sp.Pkg}
@@ -315,7 +318,7 @@ func (x *vc) script(o *obligation) string {
 	if strings.Contains(b.String(), "(streq ") || strings.Contains(o.goal, "(streq ") || strings.Contains(o.guard, "(streq ") {
 		b.WriteString(streqAxioms)
 	}
-	if body := b.String() + o.goal + o.guard; strings.Contains(body, "rv_") || strings.Contains(body, "kind_of_type") {
+	if body := b.String() + o.goal + o.guard; strings.Contains(body, "rv_") || strings.Contains(body, "kind_of_type") || strings.Contains(body, " RV)") || strings.Contains(body, " RV ") {
 		body = b.String()
 		// the reflect model's declarations must precede their uses: rebuild with them after the prelude
 		rest := body[len(prelude):]
